@@ -2858,7 +2858,12 @@ class _CaretEval:
         for p, a in zip(pats, args):
             if p.get("p") == "bind" and "hid" in p:
                 v = self.val(a, env)
-                new[p["hid"]] = ("val", v if v is not None else self.num(a, env))
+                if v is None:
+                    # a number is passed as its linear form, anything else (a Position, a Token) by its canonical name,
+                    # so that fields read from it inside the helper are the caller's atoms
+                    aty = (hirq.strip(a).get("ty") or p.get("ty") or "").lstrip("&").replace("mut ", "")
+                    v = self.num(a, env) if aty in ("usize", "u8", "u16", "u32", "u64", "i32", "i64", "isize") else self.canon(a, env)
+                new[p["hid"]] = ("val", v)
             elif p.get("p") == "tuple" or p.get("p") == "tup":
                 v = self.val(a, env)
                 subs = p.get("pats") or p.get("items") or []
